@@ -682,7 +682,8 @@ pub async fn start_replication_thread(
                                     op_log_id_in,
                                 )
                             })
-                            .fold(Ok(0), |y, x| match (y, x) {
+                            // The copies travel under the id of the operation, like every other message
+                            .fold(Ok(op_log_id_in), |y, x| match (y, x) {
                                 (Ok(id), Ok(_)) => Ok(id),
                                 (Err(e), _) => Err(e),
                                 (_, Err(e)) => Err(e),
